@@ -12,7 +12,7 @@ import sys
 
 from pyvc import REPO
 
-SCRIPT = r'''
+SCRIPT = r'''from __future__ import annotations
 import sys, random, json, itertools
 seed, wmax = int(sys.argv[1]), int(sys.argv[2])
 rng = random.Random(seed)
@@ -38,6 +38,11 @@ for q in quals:
 for n in (1, 2, 3):
     for k in kinds:
         reqs.append(("arr", k, 2, n))
+# indexing an ALREADY parametrised qualifier (Variable[Bit][bool]): rejected, or the canonical class -- never a class that is
+# registered as Variable[bool] with Variable[Bit] among its bases (depends on what was created first)
+for q in quals:
+    for t1, t2 in (("Bit", "bool"), ("bool", "int"), ("int", "Bit")):
+        reqs.append(("requal", q, t1, t2))
 rng.shuffle(reqs)
 T = {"bool": bool, "int": int, "Bit": Bit}
 def build(r):
@@ -47,6 +52,11 @@ def build(r):
     if r[0] == "qk": return quals[r[1]][kinds[r[2]]]
     if r[0] == "qt": return quals[r[1]][T[r[2]]]
     if r[0] == "arr": return Array[kinds[r[1]][r[2]], r[3]]
+    if r[0] == "requal":
+        try:
+            return quals[r[1]][T[r[2]]][T[r[3]]]
+        except (AssertionError, TypeError):
+            return "rejected"
 first = {r: build(r) for r in reqs}
 bad = []
 n = 0
@@ -60,6 +70,15 @@ for q in quals.values():
     n += 2
     if q[bool] is not q[_Boolean]: bad.append(("bool-alias", q.__name__))
     if q[int] is not q[Integer]: bad.append(("int-alias", q.__name__))
+# unrelated wrapped types are unrelated classes, whatever was requested (or attempted) first
+for qn, q in quals.items():
+    for t1, t2 in itertools.permutations(T, 2):
+        n += 1
+        if issubclass(q[T[t1]], q[T[t2]]): bad.append(("unrelated-types-related", str(q[T[t1]]), str(q[T[t2]])))
+    for t1, t2 in (("Bit", "bool"), ("bool", "int"), ("int", "Bit")):
+        got = first[("requal", qn, t1, t2)]
+        n += 1
+        if got != "rejected" and got is not q[T[t2]]: bad.append(("reparametrised-not-canonical", qn, t1, t2))
 # BitVector[n] == BitVector[n-1:0]
 for k in kinds.values():
     for w in range(2, wmax + 1):  # [0:0] is ambiguous (declared ascending), not covered by the statement
@@ -101,6 +120,23 @@ for w in range(1, wmax + 1):
                 if d2 is not d:
                     n += 1
                     if issubclass(p, Port[k[w], d2]): bad.append(("port-direction-cross", str(p), d2.name))
+# templated std types: a specialisation that FAILS (here: a field of width 0) leaves nothing in the template cache -- asking
+# again fails again instead of handing out the half-built class; successful specialisations are canonical
+from cohdl import std
+class _TW(int): pass
+class _TRec(std.Record[_TW]):
+    a: Bit
+    b: BitVector[_TW]
+outcomes = []
+for attempt in range(2):
+    try:
+        c = _TRec[0]
+        outcomes.append("class with fields " + str(sorted(getattr(c, "_cohdlstd_record_annotations", {}))))
+    except AssertionError:
+        outcomes.append("rejected")
+n += 2
+if outcomes[0] != outcomes[1]: bad.append(("failed-specialisation-cached", outcomes))
+if _TRec[2] is not _TRec[2] or _TRec[2] is _TRec[3]: bad.append(("template-not-canonical",))
 print(json.dumps({"checks": n, "bad": bad[:5], "requests": len(reqs)}))
 '''
 
